@@ -37,7 +37,7 @@ def pScalarMode (c : Ctx) (S : Bool) (kp : List Str) : J → Mode
   | _ => .scalar [[]] S (reMatchesAny c.cfg.re kp)
 
 def genericMode (c : Ctx) (S : Bool) (nkp : List Str) : J → Mode
-  | .str s => if dollarPrefixed s && !c.rfn then .keep else .scalar nkp S false
+  | .str s => if dollarPrefixed s then c.dollarMode s else .scalar nkp S false
   | _ => .scalar nkp S false
 
 def nsMode (c : Ctx) : J → Mode
@@ -77,7 +77,10 @@ def subValScalarMode (c : Ctx) (S : Bool) (k : Str) (nkp : List Str) (sk : Str) 
     (match v with
      | .str _ => .keep
      | _ => .scalar (nkp ++ [sk]) S false)
-  | _ => .scalar (nkp ++ [sk]) S false
+  | _ =>
+    (match v with
+     | .str s => if dollarPrefixed s && c.rfn && (lookup s c.T.core).isNone then .hash s else .scalar (nkp ++ [sk]) S false
+     | _ => .scalar (nkp ++ [sk]) S false)
 
 def aElemScalarMode (c : Ctx) (S : Bool) (pk : Str) (sel : Bool) (kp : List Str) : J → Mode
   | .null => .keep
@@ -111,7 +114,7 @@ theorem pScalar_mode (c : Ctx) (S : Bool) (kp : List Str) (v : J) :
 
 theorem genericScalar_mode (c : Ctx) (S : Bool) (nkp : List Str) (v : J) :
     c.genericScalar S nkp v = c.applyMode (c.genericMode S nkp v) v := by
-  cases v <;> simp only [genericScalar, genericMode] <;> (try split) <;> simp_all [applyMode]
+  cases v <;> simp only [genericScalar, genericMode] <;> (try split) <;> simp_all [dollarString_mode]
 
 theorem nsMode_apply (c : Ctx) (v : J) :
     (if c.cfg.ns then (match v with | .str s => J.str (c.H s) | _ => v) else v) = c.applyMode (c.nsMode v) v := by
@@ -138,15 +141,24 @@ theorem pValScalar_mode (c : Ctx) (S : Bool) (kp : List Str) (k : Str) (op : Opt
 
 theorem subValScalar_mode (c : Ctx) (S : Bool) (k : Str) (nkp : List Str) (sk : Str) (sm : Option Meta) (v : J) :
     c.subValScalar S k nkp sk sm v = c.applyMode (c.subValScalarMode S k nkp sk sm v) v := by
+  have hd : (match v with
+      | J.str s => if (dollarPrefixed s && c.rfn && (lookup s c.T.core).isNone) = true then J.str (c.H s)
+                   else c.scalar (nkp ++ [sk]) v S false
+      | _ => c.scalar (nkp ++ [sk]) v S false) =
+      c.applyMode (match v with
+      | J.str s => if (dollarPrefixed s && c.rfn && (lookup s c.T.core).isNone) = true then Mode.hash s
+                   else Mode.scalar (nkp ++ [sk]) S false
+      | _ => Mode.scalar (nkp ++ [sk]) S false) v := by
+    cases v <;> simp only [] <;> (try split) <;> simp
   have hn := nsMode_apply c v
   cases sm with
-  | none => simp only [subValScalar, subValScalarMode]; rfl
+  | none => simp only [subValScalar, subValScalarMode]; exact hd
   | some m =>
     cases m with
-    | nil => simp only [subValScalar, subValScalarMode]; rfl
-    | map m => simp only [subValScalar, subValScalarMode]; rfl
+    | nil => simp only [subValScalar, subValScalarMode]; exact hd
+    | map m => simp only [subValScalar, subValScalarMode]; exact hd
     | ty t =>
-      cases t <;> simp only [subValScalar, subValScalarMode] <;> (try exact hn) <;> (try rfl) <;> clear hn <;>
+      cases t <;> simp only [subValScalar, subValScalarMode] <;> (try exact hn) <;> (try exact hd) <;> (try rfl) <;> clear hn hd <;>
         (cases v <;> simp only [] <;> (repeat' split) <;> simp_all)
 
 theorem aElemScalar_mode (c : Ctx) (S : Bool) (pk : Str) (sel : Bool) (kp : List Str) (v : J) :
